@@ -8,6 +8,7 @@ import J5V.Pipe.EntityProofs
 import J5V.Pipe.ClientProofs
 import J5V.Pipe.Swagger
 import J5V.Pipe.SwaggerDocProofs
+import J5V.Pipe.SwaggerProto
 import J5V.Generated.PipeFacts
 /-!
 # C16 — everything the compiler emits is consumable by the rest of the toolchain
@@ -224,7 +225,7 @@ example : compileDefaultsOk b!"COLOR_" (enumValueNames b!"COLOR_" [b!"RED", b!"B
 arrays, maps, inline objects and inline oneofs: it returns a schema exactly when every oneof
 wrapper of the input is set and no field pointer is nil — never an error, never a panic on what
 the schema reflection produces. (That the code has the fifteen arms this model has is the
-source-fact obligation `C16_swagger_total` below.) -/
+source-fact obligation `C16_src_swagger_arms` below.) -/
 theorem C16_swagger_convert_total (f : SField) :
     (∃ t, convertSchema f = .ok t) ↔ f.wellFormed = true :=
   ⟨fun ⟨t, h⟩ => convertSchema_ok_wf f t h, convertSchema_total f⟩
@@ -356,7 +357,13 @@ command services in order: `J5V.Compile.Entity.queryService` / `commandService` 
 cluster's model of `sourcewalk/entity.go`): whenever the compiler accepts every generated service,
 the chain turns the entity into exactly those services — `<Entity>QueryService` /
 `<Name>CommandService` with the generated methods in order, each with its verb, base-path-resolved
-path, request split and response. -/
+path, request split and response.
+Scope of the quantifier: `entityServiceDecls` is `(query :: commands).filterMap id` — a generated
+service that has no `ServiceDecl` form (a command service without a name, a method whose verb is
+unspecified or which has no request) is *not in the list*, so the theorem is silent about it. The
+query service is always there (`C16_entity_query_shape`); `C16_entity_services_none_dropped` says
+when no command service is dropped. The compiler itself refuses the dropped shapes (C17's model:
+a method needs a verb and a request), which is why the stream never sees one. -/
 theorem C16_entity_client_exact (pkg sub : Str) (e : J5V.Compile.Entity)
     (hinj : ∀ s ∈ entityServiceDecls pkg e, ∀ m ∈ s.methods, SnakeInjective m.req)
     (hacc : ∀ s ∈ entityServiceDecls pkg e, ∃ d, compileService sub s = .ok d) :
@@ -366,6 +373,29 @@ theorem C16_entity_client_exact (pkg sub : Str) (e : J5V.Compile.Entity)
   intro s hs
   obtain ⟨d, hd⟩ := hacc s hs
   exact C16_client_exact sub s d (hinj s hs) hd
+
+/-- nothing is dropped from `entityServiceDecls` when every command service has a `ServiceDecl` form
+(a name, every method a specified verb and a request): the list is the query service followed by
+one service per declared command service -/
+theorem C16_entity_services_none_dropped (pkg : Str) (e : J5V.Compile.Entity)
+    (h : ∀ d ∈ entityCommandDecls pkg e, d.isSome = true) (hq : (entityQueryDecl pkg e).isSome = true) :
+    (entityServiceDecls pkg e).length = e.commands.length + 1 := by
+  have key : ∀ l : List (Option ServiceDecl), (∀ d ∈ l, d.isSome = true) → (l.filterMap id).length = l.length := by
+    intro l
+    induction l with
+    | nil => intro _; rfl
+    | cons x xs ih =>
+      intro hx
+      cases x with
+      | none => have := hx none (by simp); simp at this
+      | some v => simp [ih (fun d hd => hx d (List.mem_cons_of_mem _ hd))]
+  unfold entityServiceDecls
+  rw [key _ (by
+    intro d hd
+    rcases List.mem_cons.mp hd with rfl | hd
+    · exact hq
+    · exact h d hd)]
+  simp [entityCommandDecls]
 
 /-- the query service of every entity: `<Entity>Query` under `/<pkg path>/<entity>/q` with
 `<Entity>Get` (request = the primary / shard keys), `<Entity>List` (shard keys, page, query) and
@@ -677,7 +707,19 @@ example : groupOps [{ verb := "get", path := b!"/a" }, { verb := "post", path :=
 
 /-! ## the OpenAPI document: `BuildSwagger` on the client API (`Pipe/SwaggerDoc.lean`) -/
 
-/-- **The document is built for every client API.** `buildSwagger` (= `BuildSwagger` +
+/-- **The document is built for every client API of the model's type** (partial: see scope).
+Scope: `ClientAPI` can only hold fields that are scalars or *references* (`Field.toSField` sends
+every object / oneof / enum field to `…Ref`, every scalar to `.str`) and a `Request` that is always
+there. The inputs on which the Go code returns an error or panics — a field whose `type` oneof is
+unset (`unknown schema type`, convert.go `default:` arms), an enum / object / oneof field whose
+`schema` oneof is unset, a root schema of no kind (`expected root schema`), a nil `*Field`, a nil
+`method.Request` — are not values of this type: for them the error arms are unreachable *by the
+input type*, not by this proof. That `j5client` only ever emits reference-or-scalar fields and a
+non-nil request is read from `ObjectField/OneofField/EnumField.ToJ5Field()` and `Method.ToJ5Proto`
+and validated by the correspondence stream; the version over the proto-level input type, where the
+error arms ARE reachable and `ToJ5Proto` is a function whose image is proved well formed, is
+`C16_swagger_document_total` below; for single fields it is `C16_swagger_convert_total` (`convertSchema f = .ok ↔ f.wellFormed`), and
+`Field.toSField_wf` is the one-line bridge. Statement: `buildSwagger` (= `BuildSwagger` +
 `addService` + `addMethod` + `ConvertRootSchema` over `convertSchema`) returns `.ok` — no error
 arm, no panic arm — for *every* `ClientAPI` value: any services, methods, parameters, bodies (or
 none: raw responses), any schema map, over any schema graph (recursive, unlinked references
@@ -688,7 +730,7 @@ method's verb and path, parameters = path parameters (`in: path`, required) then
 the same set of property names, each once (`Properties` is a Go map: a later property replaces an
 earlier one of the same name — `lastWins`); the paths object is `groupOps` of the methods' (verb, path) list (so
 `C16_swagger_paths` applies to it); the component keys are the keys of the schema map. -/
-theorem C16_swagger_document_total (api : ClientAPI) :
+theorem C16_swagger_document_total_partial (api : ClientAPI) :
     ∃ doc, buildSwagger api = .ok doc ∧
       (∀ o, o ∈ doc.paths.flatten ↔
         ∃ s ∈ api.services, ∃ m ∈ s.methods, buildOperation s.name m = .ok o ∧ OperationOf s.name m o) ∧
@@ -799,10 +841,11 @@ theorem C16_client_refs_resolve (g cg : Graph) (services : List ServiceIn) (enti
     ∀ r ∈ api.refs, r ∈ api.schemaKeys :=
   client_refs_resolve g cg services entities api hcg hl hm hb
 
-/-- **Source set to document, composed**: for a `FlatLinked` schema set with linked references and
+/-- **Source set to document, composed** (partial in the same sense as
+`C16_swagger_document_total_partial`: over the model's client-API type): for a `FlatLinked` schema set with linked references and
 any declared services / entities, the client API exists, the document exists, and every `$ref` of
 the document names one of its components. -/
-theorem C16_swagger_chain (g : Graph) (hfl : FlatLinked g) (services : List ServiceIn)
+theorem C16_swagger_chain_partial (g : Graph) (hfl : FlatLinked g) (services : List ServiceIn)
     (entities : List EntityRoots) (hs : ServicesFlatOk g services)
     (hl : ∀ cg, clientGraph g = some (.ok cg) → RefsLinked cg ∧
       ∀ s ∈ services, ∀ m ∈ s.methods, PropsLinked cg (m.req ++ m.resp.getD [])) :
@@ -847,6 +890,53 @@ theorem C16_list_shape_own_properties :
         = some (.err "found-multiple-arrays") := by
   decide
 
+/-! ### the proto level: the input type on which `BuildSwagger`'s error and panic arms are reachable
+(`Pipe/SwaggerProto.lean`) -/
+
+/-- **`BuildSwagger` is total on well-formed proto-level input.** `PApi` is `client_j5pb.API` as far
+as `BuildSwagger` reads it, with every shape a `schema_j5pb.Field` can have (inline schemas, unset
+`type` / `schema` oneofs, nil), a request that may be nil and a root schema of no kind; `PApi.wf`
+(decidable) = every field `wellFormed`, every request present, every root schema of a kind. On such
+input the function returns, the paths grouped by `groupOps`, the component keys the keys of the
+schema maps. (Only this direction is proved; that each ill-formed shape does fail is shown by the
+examples below, not as an `↔`.) -/
+theorem C16_swagger_proto_total (a : PApi) (h : a.wf = true) :
+    buildSwaggerP a = .ok (groupOps (a.services.flatMap fun s => s.methods.map PMethod.toSOp), a.schemas.map (·.1)) :=
+  buildSwaggerP_ok a h
+
+/-- **The document is built for every client API the client builder's type can hold, as a proto
+value.** `ClientAPI.toProto` = `API.ToJ5Proto()` (`ToJ5Field()` of object / oneof / enum fields builds
+the `…_Ref` wrapper, `Method.ToJ5Proto` always sets `Request`, `ToJ5ClientRoot()` the wrapper of the
+schema's kind — read from `lib/j5schema/field_schema.go`, `root_schema.go`, `internal/j5client/j5package.go`,
+validated by the stream): its result is `PApi.wf`, so none of the reachable error / panic arms is
+taken. This replaces the input-type argument of `C16_swagger_document_total_partial` by a proof about
+`toProto`; what stays by correspondence is that `toProto` is what `ToJ5Proto` does. -/
+theorem C16_swagger_document_total (api : ClientAPI) :
+    api.toProto.wf = true ∧ buildSwaggerP api.toProto = .ok (groupOps api.sops, api.schemas.map (·.1)) := by
+  have h := ClientAPI.toProto_wf api
+  refine ⟨h, ?_⟩
+  rw [buildSwaggerP_ok _ h, ClientAPI.toProto_sops]
+  simp [ClientAPI.toProto]
+
+/-- the arms are reachable on the proto-level type: an unset field type in a query parameter, a nil
+request, a root schema of no kind, a nil field inside an inline object of a body, an unset enum
+schema in a component — and a well-formed inline object is fine -/
+def protoApiOf (r : Option PRequest) : PApi :=
+  { services := [{ name := b!"S", methods :=
+      [{ name := b!"M", verb := .get, path := b!"/m", request := r, responseBody := none }] }], schemas := [] }
+
+example :
+    buildSwaggerP (protoApiOf (some { pathParameters := [], queryParameters := [⟨b!"q", .unset⟩], body := none })) = .err "unknown-schema-type"
+    ∧ buildSwaggerP (protoApiOf none) = .panic "nil-pointer"
+    ∧ buildSwaggerP { services := [], schemas := [(0, .unset)] } = .err "expected-root-schema"
+    ∧ buildSwaggerP (protoApiOf (some { pathParameters := [], queryParameters := [], body := some [⟨b!"b", .objInline [.str, .nil]⟩] })) = .panic "nil-pointer"
+    ∧ buildSwaggerP { services := [], schemas := [(0, .object [⟨b!"e", .enumUnset⟩])] } = .err "unknown-schema-type"
+    ∧ buildSwaggerP (protoApiOf (some { pathParameters := [], queryParameters := [], body := some [⟨b!"b", .objInline [.str, .array .enumInline]⟩] }))
+        = .ok ([[{ verb := "get", path := b!"/m" }]], []) := by
+  refine ⟨by decide, by decide, by decide, by decide, by decide, by decide⟩
+
+example : exampleApi.toProto.wf = true ∧ (buildSwaggerP exampleApi.toProto).isOk = true := by decide
+
 end J5V.Props.C16
 
 /-! ## Obligations over facts regenerated from the current source (`extract -what pipe`) -/
@@ -855,7 +945,7 @@ open J5V.Generated.Pipe
 
 /-- `convertSchema` has an arm for every member of the oneof `j5.schema.v1.Field.type`
 (so the `default: unknown schema type for swagger` arm is unreachable for well-formed input). -/
-theorem C16_swagger_total : ∀ m ∈ fieldOneofMembers, m ∈ convertSchemaArms := by decide
+theorem C16_src_swagger_arms : ∀ m ∈ fieldOneofMembers, m ∈ convertSchemaArms := by decide
 
 /-- the oneof has the fifteen members the models and the generator know about -/
 theorem C16_src_field_members : fieldOneofMembers =
@@ -974,5 +1064,25 @@ theorem C16_src_swagger_document :
         "Sprintf \"#/definitions/%s.%s\" t.Ref.Package, t.Ref.Schema",
         "Sprintf \"#/definitions/%s.%s\" t.Ref.Package, t.Ref.Schema"] := by
   decide
+
+/-- `ClientAPI.toProto` (`Pipe/SwaggerProto.lean`) follows the source of `API.ToJ5Proto()`: the
+`ToJ5Field()` of an object / oneof / enum field builds exactly `Field{Field_X{XField{XField_Ref{Ref}}}}` —
+always the reference wrapper, never an inline schema, never an unset oneof; the client root of an
+object / oneof / enum is `RootSchema{RootSchema_Object|Oneof|Enum}`; `Method.ToJ5Proto` sets `Request`
+from `mm.Request.ToJ5Proto()` (a non-nil pointer to a composite literal). These are the three facts
+that make `ClientAPI.toProto_wf` a statement about the code. -/
+theorem C16_src_to_j5_proto :
+    toJ5FieldWrappers = [
+      "ObjectField: schema_j5pb.Field schema_j5pb.Field_Object schema_j5pb.ObjectField schema_j5pb.ObjectField_Ref schema_j5pb.Ref",
+      "OneofField: schema_j5pb.Field schema_j5pb.Field_Oneof schema_j5pb.OneofField schema_j5pb.OneofField_Ref schema_j5pb.Ref",
+      "EnumField: schema_j5pb.Field schema_j5pb.Field_Enum schema_j5pb.EnumField schema_j5pb.EnumField_Ref schema_j5pb.Ref"]
+    ∧ clientRootWrappers = [
+      "ObjectSchema.ToJ5ClientRoot: schema_j5pb.RootSchema schema_j5pb.RootSchema_Object",
+      "OneofSchema.ToJ5Root: schema_j5pb.RootSchema schema_j5pb.RootSchema_Oneof schema_j5pb.Oneof",
+      "EnumSchema.ToJ5Root: schema_j5pb.RootSchema schema_j5pb.RootSchema_Enum schema_j5pb.Enum"]
+    ∧ methodRequestField = "mm.Request.ToJ5Proto(…)" := by
+  refine ⟨?_, ?_, by decide⟩
+  · set_option maxRecDepth 4000 in decide
+  · set_option maxRecDepth 4000 in decide
 
 end J5V.Props.C16
